@@ -24,6 +24,7 @@ import (
 
 	"verif/mc/enum"
 	"verif/mc/explore"
+	"verif/mc/mrun"
 	"verif/mc/runner"
 )
 
@@ -189,6 +190,27 @@ func inputs(c *codec, tier string, yield func([]byte) bool) {
 			}
 		}
 	}
+	// well-formed Winbox messages from an independent encoder: every user-name length from 1
+	// byte up to a body of two full chunks and beyond, plain and RoMON, both parities - the
+	// chunk boundaries (body of exactly 255 / 510 bytes) are where the length arithmetic lives
+	if c.name == "winbox.MessageAuth" {
+		for n := 1; n <= 520; n++ {
+			for _, romon := range []bool{false, true} {
+				u := strings.Repeat("u", n)
+				if romon {
+					if n < 3 {
+						continue
+					}
+					u = u[:n-2] + "+r"
+				}
+				for _, par := range []byte{0, 1} {
+					if !emit(mrun.WinboxAuth(u, par)) {
+						return
+					}
+				}
+			}
+		}
+	}
 	// the module's own test vectors and their systematic mutations
 	alpha := enum.Alphabet(filepath.Join("/repo/modules", c.pkg), 14)
 	for _, seed := range enum.CorpusFromTests(filepath.Join("/repo/modules", c.pkg)) {
@@ -218,7 +240,7 @@ func main() {
 	runner.Main(&runner.Harness{
 		ID:          "C18",
 		Level:       "model_checking",
-		Rule:        "for each exported wire-message type (OpenVPN header/plain/auth/crypt/crypt2/wrapped key, WireGuard initiation/transport, Winbox auth, RDP TPKT/X.224/token/negotiation request/correlation info): every length from 0 to size+3 (variable messages: min..min+40, thorough +300; Winbox up to 520) in three fill patterns, every byte-slice literal of the module's tests with all prefixes, extensions and single-position substitutions, and the counter pattern at the size bounds with all single-position substitutions; oracle: accepted => ToBytes(FromBytes(b)) == b and FromBytes(ToBytes(m)) == m; fixed-size messages reject every other length; no panic; states = distinct (type, input) pairs",
+		Rule:        "for each exported wire-message type (OpenVPN header/plain/auth/crypt/crypt2/wrapped key, WireGuard initiation/transport, Winbox auth, RDP TPKT/X.224/token/negotiation request/correlation info): every length from 0 to size+3 (variable messages: min..min+40, thorough +300; Winbox up to 520) in three fill patterns, well-formed Winbox messages from an independent encoder for every user-name length 1..520 (plain and RoMON, both parities), every byte-slice literal of the module's tests with all prefixes, extensions and single-position substitutions, and the counter pattern at the size bounds with all single-position substitutions; oracle: accepted => ToBytes(FromBytes(b)) == b and FromBytes(ToBytes(m)) == m; fixed-size messages reject every other length; no panic; states = distinct (type, input) pairs",
 		Assumptions: []string{"equality of messages is structural (nil and empty slices equal)"},
 		Scenarios: func(tier string, yield func(any) bool) {
 			for _, c := range codecs {
